@@ -94,4 +94,49 @@ theorem finalNl_last (nl : Bool) (es : List (PatElem Bytes)) (hne : es ≠ []) (
       have := fun nl' => ih nl' (by simp) (mlLastOK_tail hl)
       cases e <;> simp only [finalNl] <;> exact this _
 
+theorem ws_indent {w : Writer} {L : Nat} {nl : Bool} (h : WS w L nl) : WS w.indent (L + 1) nl := by
+  obtain ⟨a, b, c⟩ := h
+  exact ⟨by simp [a], b, c⟩
+
+theorem serPattern_ml (L : Nat) (p : List (PatElem Bytes)) (hcl : mlPattern p = true)
+    (hpl : ∀ x, PatElem.placeable x ∈ p → PlRT (elemLevel L p) x) (w : Writer) (hw : WS w L false) :
+    ∃ w', serPattern w p = some w' ∧ w'.buffer = w.buffer ++ (patText L p).toArray ∧ WS w' L false := by
+  simp only [mlPattern, Bool.and_eq_true, Bool.not_eq_true', List.isEmpty_eq_false_iff] at hcl
+  obtain ⟨⟨⟨⟨hne, hml⟩, hlast⟩, _⟩, _⟩ := hcl
+  obtain ⟨hL, h13, h10⟩ := hw
+  -- the writer after `patternPre`
+  have hpre : (patternPre w p).buffer = w.buffer ++ (patPrefix p).toArray ∧
+      WS (patternPre w p) (elemLevel L p) (startsOnNewLine p) := by
+    unfold patternPre patPrefix elemLevel
+    simp only []
+    cases hs : startsOnNewLine p
+    · have hw' : WS w L false := ⟨hL, h13, h10⟩
+      obtain ⟨hb, hw1⟩ := ws_writeLiteral hw' [32] (by simp) (by simp)
+      simp only [Bool.false_eq_true, if_false, lit_sp]
+      have hw1' : WS (w.writeLiteral [32]) L false := by simpa [endsNl] using hw1
+      split
+      · exact ⟨by simpa using hb, ws_indent hw1'⟩
+      · exact ⟨by simpa using hb, hw1'⟩
+    · have hb : w.newline.buffer = w.buffer ++ #[10] := by rw [newline_buffer, h13]; simp
+      have hw1 : WS w.newline L true := ⟨by simp [hL], by simp [endsWith, hb, Array.back?_append], by simp⟩
+      simp only [if_true]
+      split
+      · exact ⟨by simpa using hb, ws_indent hw1⟩
+      · exact ⟨by simpa using hb, hw1⟩
+  obtain ⟨w3, hs3, hb3, hw3⟩ := serElements_ml (elemLevel L p) p hpl (startsOnNewLine p) (patternPre w p) hml hpre.2
+  rw [finalNl_last _ p hne hlast] at hw3
+  simp only [serPattern, hs3]
+  unfold patternPost
+  have hbuf : w3.buffer = w.buffer ++ (patText L p).toArray := by
+    rw [hb3, hpre.1]; apply Array.ext'; simp [patText]
+  obtain ⟨a, b, c⟩ := hw3
+  split
+  · rename_i hm
+    have ha : w3.indentLevel = L + 1 := by simpa [elemLevel, hm] using a
+    obtain ⟨w', hd, hl, hbf⟩ := dedent_of_pos (w := w3) (by omega)
+    exact ⟨w', hd, by rw [hbf, hbuf], by omega, by simpa [endsWith, hbf] using b, by simpa [endsWith, hbf] using c⟩
+  · rename_i hm
+    have ha : w3.indentLevel = L := by simpa [elemLevel, hm] using a
+    exact ⟨w3, rfl, hbuf, ha, b, c⟩
+
 end FluentProofs.Ser
